@@ -35,6 +35,7 @@ type Tgt struct {
 	Named  map[string][]string `json:"named,omitempty"` // named outputs
 	Eps    map[string]string   `json:"eps,omitempty"`   // entry points
 	Binary bool                `json:"binary,omitempty"`
+	Sub    string              `json:"sub,omitempty"` // subrepo ("" = the main repository)
 }
 
 type Input struct {
@@ -43,18 +44,23 @@ type Input struct {
 	Name string `json:"name,omitempty"`
 	Ann  string `json:"ann,omitempty"`
 	Path string `json:"path,omitempty"` // file name, system path or tool name
+	Sub  string `json:"sub,omitempty"`  // subrepo of a label
 }
 
 type World struct {
 	Self  Tgt         `json:"self"`
 	Srcs  []Input     `json:"srcs,omitempty"`
 	Tools []Input     `json:"tools,omitempty"`
-	Deps  [][2]string `json:"deps,omitempty"`
+	Deps  [][3]string `json:"deps,omitempty"` // package, name, subrepo
 	Graph []Tgt       `json:"graph"`
 	Root  string      `json:"root"`
 }
 
-func (t Tgt) label() string { return "//" + t.Pkg + ":" + t.Name }
+func (t Tgt) label() string { return mkLabel(t.Sub, t.Pkg, t.Name).String() }
+
+func mkLabel(sub, pkg, name string) core.BuildLabel {
+	return core.BuildLabel{Subrepo: sub, PackageName: pkg, Name: name}
+}
 
 type built struct {
 	state  *core.BuildState
@@ -63,7 +69,7 @@ type built struct {
 }
 
 func mkTarget(t Tgt) *core.BuildTarget {
-	bt := core.NewBuildTarget(core.NewBuildLabel(t.Pkg, t.Name))
+	bt := core.NewBuildTarget(mkLabel(t.Sub, t.Pkg, t.Name))
 	bt.IsBinary = t.Binary
 	for _, o := range t.Outs {
 		bt.AddOutput(o)
@@ -84,9 +90,9 @@ func mkInput(in Input, pkg string) core.BuildInput {
 	case "file":
 		return core.FileLabel{File: in.Path, Package: pkg}
 	case "label":
-		return core.NewBuildLabel(in.Pkg, in.Name)
+		return mkLabel(in.Sub, in.Pkg, in.Name)
 	case "annot":
-		return core.AnnotatedOutputLabel{BuildLabel: core.NewBuildLabel(in.Pkg, in.Name), Annotation: in.Ann}
+		return core.AnnotatedOutputLabel{BuildLabel: mkLabel(in.Sub, in.Pkg, in.Name), Annotation: in.Ann}
 	case "syspath":
 		return core.SystemPathLabel{Name: in.Path, Path: []string{"/usr/local/bin", "/usr/bin", "/bin"}}
 	case "sysfile":
@@ -101,10 +107,11 @@ func build(w *World) *built {
 	b := &built{state: state, byLbl: map[string]*core.BuildTarget{}}
 	pkgs := map[string]*core.Package{}
 	addPkg := func(t *core.BuildTarget) {
-		p := pkgs[t.Label.PackageName]
+		key := t.Label.Subrepo + "\x00" + t.Label.PackageName
+		p := pkgs[key]
 		if p == nil {
-			p = core.NewPackage(t.Label.PackageName)
-			pkgs[t.Label.PackageName] = p
+			p = core.NewPackageSubrepo(t.Label.PackageName, t.Label.Subrepo)
+			pkgs[key] = p
 		}
 		p.AddTarget(t)
 	}
@@ -129,7 +136,7 @@ func build(w *World) *built {
 		self.AddEntryPoint(n, w.Self.Eps[n])
 	}
 	for _, d := range w.Deps {
-		self.AddDependency(core.NewBuildLabel(d[0], d[1]))
+		self.AddDependency(mkLabel(d[2], d[0], d[1]))
 	}
 	state.Graph.AddTarget(self)
 	addPkg(self)
@@ -209,7 +216,9 @@ func childMain(req string) {
 // ---------------------------------------------------------------------------------------------------------------
 // Coq printers
 
-func coqLbl(pkg, name string) string { return lib.Pair(lib.Str(pkg), lib.Str(name)) }
+func coqLbl(pkg, name, sub string) string {
+	return "(" + lib.Str(pkg) + ", " + lib.Str(name) + ", " + lib.Str(sub) + ")"
+}
 
 func coqTgt(t Tgt, outs []string) string {
 	named := []string{}
@@ -220,7 +229,7 @@ func coqTgt(t Tgt, outs []string) string {
 	for _, n := range lib.SortedKeys(t.Eps) {
 		eps = append(eps, lib.Pair(lib.Str(n), lib.Str(t.Eps[n])))
 	}
-	return lib.App("T", coqLbl(t.Pkg, t.Name), lib.StrList(outs), lib.List(named), lib.List(eps), lib.Bool(t.Binary))
+	return lib.App("T", coqLbl(t.Pkg, t.Name, t.Sub), lib.StrList(outs), lib.List(named), lib.List(eps), lib.Bool(t.Binary))
 }
 
 func coqInput(in Input) string {
@@ -228,9 +237,9 @@ func coqInput(in Input) string {
 	case "file":
 		return lib.App("IFile", lib.Str(in.Path))
 	case "label":
-		return lib.App("ILabel", coqLbl(in.Pkg, in.Name))
+		return lib.App("ILabel", coqLbl(in.Pkg, in.Name, in.Sub))
 	case "annot":
-		return lib.App("IAnnot", coqLbl(in.Pkg, in.Name), lib.Str(in.Ann))
+		return lib.App("IAnnot", coqLbl(in.Pkg, in.Name, in.Sub), lib.Str(in.Ann))
 	}
 	return lib.App("ISys", lib.Str(in.Path))
 }
@@ -245,7 +254,7 @@ func coqWorld(w *World, b *built) string {
 	}
 	deps := []string{}
 	for _, d := range w.Deps {
-		deps = append(deps, coqLbl(d[0], d[1]))
+		deps = append(deps, coqLbl(d[0], d[1], d[2]))
 	}
 	graph := []string{}
 	for _, g := range w.Graph {
@@ -266,17 +275,28 @@ var filePool = []string{"f.txt", "d/g.txt", "a b.c", "h;i.c", "j$k.c", "l.c"}
 const shellSpecial = " \t\n|&;()<>$`\\\"'*?[#~=%{}"
 const documentedQuoteSet = "|&;()<>"
 
-func genWorld(r *lib.Rng, root string, plain bool) *World {
+// subrepo names: a vendored tree, an architecture (the cross-compile case of the TODO in replaceSequenceLabel), a short one
+var subPool = []string{"third_party/sub", "freebsd_amd64", "vend"}
+
+// name modes of a world: every pool entry / plain names only / plain names and the operators quote is documented to handle
+const (
+	namesAll = iota
+	namesPlain
+	namesOperators
+)
+
+func genWorld(r *lib.Rng, root string, mode int, subrepos bool) *World {
 	pick := func(pool []string) string {
-		if plain {
-			for {
-				x := lib.Pick(r, pool)
-				if !strings.ContainsAny(x, shellSpecial) {
-					return x
-				}
+		for {
+			x := lib.Pick(r, pool)
+			switch {
+			case mode == namesPlain && strings.ContainsAny(x, shellSpecial):
+			case mode == namesOperators && hasUnhandledSpecial([]string{x}):
+			case mode == namesOperators && !strings.ContainsAny(x, documentedQuoteSet) && r.Chance(1, 2): // lean towards operators
+			default:
+				return x
 			}
 		}
-		return lib.Pick(r, pool)
 	}
 	w := &World{Root: root}
 	w.Self = Tgt{Pkg: pick(pkgPool), Name: "gen", Outs: []string{"gen.out"}}
@@ -291,8 +311,11 @@ func genWorld(r *lib.Rng, root string, plain bool) *World {
 		} else {
 			t.Pkg = pick(pkgPool)
 		}
+		if subrepos && r.Chance(1, 3) {
+			t.Sub = lib.Pick(r, subPool)
+		}
 		nout := r.Range(1, 3)
-		if r.Chance(1, 2) {
+		if r.Chance(1, 2) && mode != namesOperators {
 			nout = 1
 		}
 		all := []string{}
@@ -315,33 +338,52 @@ func genWorld(r *lib.Rng, root string, plain bool) *World {
 		}
 		w.Graph = append(w.Graph, t)
 	}
+	if subrepos {
+		// twins: the same package:name in another repository (main repository <-> subrepo, subrepo <-> subrepo), with
+		// outputs of its own; whether either of them is a dependency is decided independently below
+		n0 := len(w.Graph)
+		for i := 0; i < n0; i++ {
+			if !r.Chance(2, 3) {
+				continue
+			}
+			tw := w.Graph[i]
+			for tw.Sub == w.Graph[i].Sub {
+				tw.Sub = lib.Pick(r, append([]string{"", ""}, subPool...))
+			}
+			tw.Outs, tw.Named, tw.Eps = []string{tw.Name + "_twin.o"}, nil, nil
+			if r.Chance(1, 3) {
+				tw.Outs = append(tw.Outs, tw.Name+"_twin2.o")
+			}
+			w.Graph = append(w.Graph, tw)
+		}
+	}
 	// roles
 	for _, t := range w.Graph {
 		switch r.Intn(9) {
 		case 0, 1:
-			w.Srcs = append(w.Srcs, Input{Kind: "label", Pkg: t.Pkg, Name: t.Name})
+			w.Srcs = append(w.Srcs, Input{Kind: "label", Pkg: t.Pkg, Name: t.Name, Sub: t.Sub})
 		case 2:
 			if t.Named != nil {
-				w.Srcs = append(w.Srcs, Input{Kind: "annot", Pkg: t.Pkg, Name: t.Name, Ann: lib.Pick(r, []string{"n1", "n2"})})
+				w.Srcs = append(w.Srcs, Input{Kind: "annot", Pkg: t.Pkg, Name: t.Name, Sub: t.Sub, Ann: lib.Pick(r, []string{"n1", "n2"})})
 			} else if t.Eps != nil {
-				w.Srcs = append(w.Srcs, Input{Kind: "annot", Pkg: t.Pkg, Name: t.Name, Ann: "main"})
+				w.Srcs = append(w.Srcs, Input{Kind: "annot", Pkg: t.Pkg, Name: t.Name, Sub: t.Sub, Ann: "main"})
 			} else {
-				w.Srcs = append(w.Srcs, Input{Kind: "label", Pkg: t.Pkg, Name: t.Name})
+				w.Srcs = append(w.Srcs, Input{Kind: "label", Pkg: t.Pkg, Name: t.Name, Sub: t.Sub})
 			}
 		case 3, 4:
 			if t.Eps != nil && r.Bool() {
-				w.Tools = append(w.Tools, Input{Kind: "annot", Pkg: t.Pkg, Name: t.Name, Ann: "main"})
+				w.Tools = append(w.Tools, Input{Kind: "annot", Pkg: t.Pkg, Name: t.Name, Sub: t.Sub, Ann: "main"})
 			} else {
-				w.Tools = append(w.Tools, Input{Kind: "label", Pkg: t.Pkg, Name: t.Name})
+				w.Tools = append(w.Tools, Input{Kind: "label", Pkg: t.Pkg, Name: t.Name, Sub: t.Sub})
 			}
 		case 5:
-			w.Deps = append(w.Deps, [2]string{t.Pkg, t.Name})
+			w.Deps = append(w.Deps, [3]string{t.Pkg, t.Name, t.Sub})
 		case 6:
-			w.Deps = append(w.Deps, [2]string{t.Pkg, t.Name})
-			w.Srcs = append(w.Srcs, Input{Kind: "label", Pkg: t.Pkg, Name: t.Name})
+			w.Deps = append(w.Deps, [3]string{t.Pkg, t.Name, t.Sub})
+			w.Srcs = append(w.Srcs, Input{Kind: "label", Pkg: t.Pkg, Name: t.Name, Sub: t.Sub})
 		case 7:
-			w.Deps = append(w.Deps, [2]string{t.Pkg, t.Name})
-			w.Tools = append(w.Tools, Input{Kind: "label", Pkg: t.Pkg, Name: t.Name})
+			w.Deps = append(w.Deps, [3]string{t.Pkg, t.Name, t.Sub})
+			w.Tools = append(w.Tools, Input{Kind: "label", Pkg: t.Pkg, Name: t.Name, Sub: t.Sub})
 		case 8: // not a dependency at all
 		}
 	}
@@ -375,7 +417,10 @@ func (s seq) text() string { return "$(" + s.Kind + " " + s.Arg + ")" }
 
 func labelArg(r *lib.Rng, w *World, t Tgt) string {
 	a := t.label()
-	if t.Pkg == w.Self.Pkg && r.Bool() {
+	if t.Sub != "" && r.Bool() {
+		a = "@" + t.Sub + "//" + t.Pkg + ":" + t.Name
+	}
+	if t.Sub == "" && t.Pkg == w.Self.Pkg && r.Bool() {
 		a = ":" + t.Name
 	}
 	switch r.Intn(14) {
@@ -396,6 +441,14 @@ func genSeqs(r *lib.Rng, w *World, n int) []seq {
 	for i := 0; i < n; i++ {
 		k := lib.Pick(r, kinds)
 		switch c := r.Intn(20); {
+		case c < 3 && w.hasSubrepos():
+			// the same package:name under another repository: the twin if there is one, else a label that names nothing
+			t := lib.Pick(r, w.Graph)
+			for s0 := t.Sub; t.Sub == s0; {
+				t.Sub = lib.Pick(r, append([]string{"", "", "elsewhere"}, subPool...))
+			}
+			t.Named, t.Eps = nil, nil
+			out = append(out, seq{k, labelArg(r, w, t)})
 		case c < 13:
 			out = append(out, seq{k, labelArg(r, w, lib.Pick(r, w.Graph))})
 		case c < 15:
@@ -420,19 +473,28 @@ func genSeqs(r *lib.Rng, w *World, n int) []seq {
 
 type roles struct{ plainSrc, namedSrc, epSrc, tool, dep bool }
 
-func (w *World) find(pkg, name string) *Tgt {
+func (w *World) find(sub, pkg, name string) *Tgt {
 	for i := range w.Graph {
-		if w.Graph[i].Pkg == pkg && w.Graph[i].Name == name {
+		if w.Graph[i].Sub == sub && w.Graph[i].Pkg == pkg && w.Graph[i].Name == name {
 			return &w.Graph[i]
 		}
 	}
 	return nil
 }
 
+func (w *World) hasSubrepos() bool {
+	for _, t := range w.Graph {
+		if t.Sub != "" {
+			return true
+		}
+	}
+	return false
+}
+
 func (w *World) rolesOf(t *Tgt) roles {
 	var ro roles
 	for _, s := range w.Srcs {
-		if s.Pkg == t.Pkg && s.Name == t.Name {
+		if s.Sub == t.Sub && s.Pkg == t.Pkg && s.Name == t.Name {
 			switch {
 			case s.Kind == "label":
 				ro.plainSrc = true
@@ -444,12 +506,12 @@ func (w *World) rolesOf(t *Tgt) roles {
 		}
 	}
 	for _, s := range w.Tools {
-		if (s.Kind == "label" || s.Kind == "annot") && s.Pkg == t.Pkg && s.Name == t.Name {
+		if (s.Kind == "label" || s.Kind == "annot") && s.Sub == t.Sub && s.Pkg == t.Pkg && s.Name == t.Name {
 			ro.tool = true
 		}
 	}
 	for _, d := range w.Deps {
-		if d[0] == t.Pkg && d[1] == t.Name {
+		if d[0] == t.Pkg && d[1] == t.Name && d[2] == t.Sub {
 			ro.dep = true
 		}
 	}
@@ -465,7 +527,8 @@ type expectation struct {
 	inRepo bool   // paths are relative to the repository root (out_ forms) rather than to the build directory
 	dirOf  string // for dir forms: a file that must exist below the directory
 	names  []string
-	shape  string // the known-finding shape this sequence has, if any
+	paths  []string // the exact words the expansion must split into (only where no known finding applies)
+	shape  string   // the known-finding shape this sequence has, if any
 	why    string
 }
 
@@ -488,27 +551,48 @@ func expect(w *World, b *built, s seq) expectation {
 			}
 		}
 		l, err := core.TryParseBuildLabel(arg, w.Self.Pkg, "")
-		if err != nil || l.Subrepo != "" {
-			e.why = "not a label of this repository"
+		if err != nil {
+			e.why = "not a label"
 			return e
 		}
-		if l.PackageName == w.Self.Pkg && l.Name == w.Self.Name {
+		// label identity is (subrepo, package, name): nothing below may match across repositories
+		if l.Subrepo == "" && l.PackageName == w.Self.Pkg && l.Name == w.Self.Name {
 			// the rule's own outputs do not exist while its build command runs
 			e.shape, e.why = "self-reference-in-build-command", "names the rule itself"
 			return e
 		}
-		t := w.find(l.PackageName, l.Name)
+		t := w.find(l.Subrepo, l.PackageName, l.Name)
 		if t == nil {
-			e.why = "no such target"
+			e.why = "no such target in that repository"
 			return e
 		}
 		ro := w.rolesOf(t)
 		if !ro.declared() {
-			e.why = "not a dependency"
+			e.why = "not a dependency under that exact label (subrepo included)"
 			return e
 		}
 		outs := allOuts(b, t)
-		e.names = append([]string{t.Pkg}, outs...)
+		e.names = append([]string{t.Pkg, t.Sub}, outs...)
+		// where the outputs of t are: the build directory holds them under the package name (no subrepo), plz-out
+		// under gen|bin/<subrepo>/<package>; tools are named by their absolute plz-out path
+		kindDir := "gen"
+		if t.Binary {
+			kindDir = "bin"
+		}
+		base := t.Pkg
+		if outp {
+			base = filepath.Join("plz-out", kindDir, t.Sub, t.Pkg)
+		}
+		pathsOf := func(rel []string) []string {
+			if dir {
+				return []string{base}
+			}
+			ps := []string{}
+			for _, o := range rel {
+				ps = append(ps, filepath.Join(base, o))
+			}
+			return ps
+		}
 		if ep != "" {
 			o, ok := t.Eps[ep]
 			if !ok {
@@ -529,6 +613,8 @@ func expect(w *World, b *built, s seq) expectation {
 				e.shape = "named-output-source-lists-all-outputs"
 			} else if !outp && dir && t.Pkg == "" {
 				e.shape = "dir-of-root-package-empty"
+			} else {
+				e.paths = pathsOf([]string{o})
 			}
 			return e
 		}
@@ -544,12 +630,18 @@ func expect(w *World, b *built, s seq) expectation {
 		if dir {
 			e.words, e.dirOf = 1, outs[0]
 		}
+		if ro.tool {
+			base = filepath.Join(w.Root, "plz-out", kindDir, t.Sub, t.Pkg)
+		}
 		if !ro.tool && !outp {
 			if !ro.plainSrc && !ro.epSrc && !ro.dep {
 				e.shape = "named-output-source-lists-all-outputs"
 			} else if dir && t.Pkg == "" {
 				e.shape = "dir-of-root-package-empty"
 			}
+		}
+		if e.shape == "" {
+			e.paths = pathsOf(outs)
 		}
 		return e
 	}
@@ -569,6 +661,7 @@ func expect(w *World, b *built, s seq) expectation {
 	for _, sr := range w.Srcs {
 		if sr.Kind == "file" && sr.Path == arg {
 			e.valid, e.words = true, 1
+			e.paths = []string{filepath.Join(w.Self.Pkg, arg)}
 			return e
 		}
 	}
@@ -769,10 +862,11 @@ func main() {
 	lib.Main("C37", func(c *lib.Ctx) {
 		c.Model("From PlzV Require Import Model.C37.", "C37.case", "C37.check")
 		c.Rule("worlds: a current target with sources (files, labels, //x:y|named-output, //x:y|entry-point), tools (labels, |entry point, system tools) and deps " +
-			"over 3-6 targets with 1-3 outputs, named output groups, entry points and the binary flag, package and file names over an alphabet with shell metacharacters (half of the worlds: plain names only); " +
+			"over 3-6 targets with 1-3 outputs, named output groups, entry points and the binary flag, package and file names over an alphabet with shell metacharacters (a third of the worlds: plain names only; a third: plain names and the operators |&;()<> only, several outputs per target, $(locations)/$(out_locations) of every declared multi-output source, dep and tool); " +
+			"half of the worlds put a third of the targets into subrepos (a vendored tree, an architecture, a short name) and add twins: the same package:name in another repository, each declared or not independently, with sequences naming the undeclared side (///sub//p:n, @sub//p:n, //p:n, an unknown subrepo); " +
 			"per world 10 single sequences (every keyword x label / :local / |entry point / file / self / system tool / malformed or foreign label) through core.ReplaceSequences, " +
 			"2 composite commands, 1 test command through core.ReplaceTestSequences, and the core.IterSources layout; unknown entry points run in a child process (log.Fatalf). " +
-			"oracle: the world is materialised on disk as IterSources says and bash, in the build directory (or the repo root for out_ forms), must make the expected number of words, each existing; " +
+			"oracle: the world is materialised on disk as IterSources says and bash, in the build directory (or the repo root for out_ forms), must make the expected number of words, each existing and (outside the known-finding shapes) each equal to the path computed from the world description (<pkg>/<out>, plz-out/gen|bin/<subrepo>/<pkg>/<out>, absolute for tools); a label is a dependency only under its exact (subrepo, package, name); " +
 			"sequences that must be rejected must not expand. distinct = distinct (world, command); non-trivial = the sequence names a declared dependency or file and expands")
 
 		if os.Getenv("C37_SKIP_INPROC") == "" {
@@ -787,6 +881,29 @@ func main() {
 	})
 }
 
+func sameWords(a, b []string) bool {
+	if len(a) != len(b) {
+		return false
+	}
+	for i := range a {
+		if a[i] != b[i] {
+			return false
+		}
+	}
+	return true
+}
+
+// pluralSeqs: $(locations) / $(out_locations) of declared targets with several outputs (sources, deps and tools).
+func pluralSeqs(r *lib.Rng, w *World, n int) []seq {
+	out := []seq{}
+	for _, t := range w.Graph {
+		if len(out) < n && len(t.Outs)+len(t.Named) >= 2 && w.rolesOf(&t).declared() {
+			out = append(out, seq{lib.Pick(r, []string{"locations", "out_locations"}), t.label()})
+		}
+	}
+	return out
+}
+
 type corpusWorld struct {
 	w    func(root string) *World
 	seqs []seq
@@ -798,7 +915,7 @@ var corpus = []corpusWorld{
 		return &World{Root: root, Self: Tgt{Pkg: "p", Name: "gen", Outs: []string{"gen.out"}},
 			Srcs:  []Input{{Kind: "label", Pkg: "p", Name: "sp"}, {Kind: "annot", Pkg: "p", Name: "named", Ann: "n1"}, {Kind: "file", Path: "real.txt"}, {Kind: "label", Pkg: "p", Name: "semi"}},
 			Tools: []Input{{Kind: "label", Pkg: "p", Name: "tool"}, {Kind: "syspath", Path: "bash"}},
-			Deps:  [][2]string{{"q/r", "far"}},
+			Deps:  [][3]string{{"q/r", "far", ""}},
 			Graph: []Tgt{{Pkg: "p", Name: "sp", Outs: []string{"a b.txt"}}, {Pkg: "p", Name: "semi", Outs: []string{"se;mi.txt"}},
 				{Pkg: "p", Name: "named", Named: map[string][]string{"n1": {"n1.txt"}, "n2": {"n2.txt"}}},
 				{Pkg: "p", Name: "tool", Outs: []string{"bin/t.sh"}, Eps: map[string]string{"main": "bin/t.sh"}, Binary: true},
@@ -812,10 +929,43 @@ var corpus = []corpusWorld{
 			Srcs:  []Input{{Kind: "label", Pkg: "", Name: "rootdep"}, {Kind: "label", Pkg: "p", Name: "lib"}},
 			Graph: []Tgt{{Pkg: "", Name: "rootdep", Outs: []string{"r.txt"}}, {Pkg: "p", Name: "lib", Outs: []string{"libdir/inner.txt"}, Eps: map[string]string{"main": "libdir/inner.txt"}}}}
 	}, []seq{{"dir", ":rootdep"}, {"location", ":rootdep"}, {"out_dir", ":rootdep"}, {"location", "//p:lib|main"}, {"dir", "//p:lib|main"}, {"location", "//p:lib|nosuch"}}},
+	// several outputs of which some need quotes (sources, deps and tools): one word per output, each quoted on its own
+	{func(root string) *World {
+		return &World{Root: root, Self: Tgt{Pkg: "path/to", Name: "gen", Outs: []string{"gen.out"}},
+			Srcs:  []Input{{Kind: "label", Pkg: "path/to", Name: "amp"}, {Kind: "label", Pkg: "s;t", Name: "pk"}},
+			Tools: []Input{{Kind: "label", Pkg: "path/to", Name: "tool2"}},
+			Deps:  [][3]string{{"q/r", "par", ""}},
+			Graph: []Tgt{{Pkg: "path/to", Name: "amp", Outs: []string{"b&b.txt", "plain.txt"}},
+				{Pkg: "s;t", Name: "pk", Outs: []string{"one.txt", "two.txt", "th(r)ee.txt"}},
+				{Pkg: "path/to", Name: "tool2", Outs: []string{"t;1.sh", "t2.sh"}, Binary: true},
+				{Pkg: "q/r", Name: "par", Outs: []string{"x|y", "z<w>"}}}}
+	}, []seq{{"locations", ":amp"}, {"out_locations", ":amp"}, {"locations", "//s;t:pk"}, {"out_locations", "//s;t:pk"},
+		{"locations", ":tool2"}, {"out_locations", ":tool2"}, {"locations", "//q/r:par"}, {"out_locations", "//q/r:par"},
+		{"dir", "//s;t:pk"}, {"location", ":amp"}}},
+	// the same package:name in the main repository and in subrepos: only the exact label (subrepo included) is a dependency
+	{func(root string) *World {
+		return &World{Root: root, Self: Tgt{Pkg: "path/to", Name: "gen", Outs: []string{"gen.out"}},
+			Srcs:  []Input{{Kind: "label", Pkg: "path/to", Name: "target2"}, {Kind: "label", Pkg: "q", Name: "lib", Sub: "vend"}},
+			Tools: []Input{{Kind: "label", Pkg: "tools", Name: "tool"}, {Kind: "label", Pkg: "tools", Name: "xtool", Sub: "freebsd_amd64"}},
+			Deps:  [][3]string{{"path/to", "dep3", "third_party/sub"}},
+			Graph: []Tgt{{Pkg: "path/to", Name: "target2", Outs: []string{"t2.txt"}},
+				{Pkg: "path/to", Name: "target2", Sub: "third_party/sub", Outs: []string{"t2sub.txt"}},
+				{Pkg: "q", Name: "lib", Sub: "vend", Outs: []string{"l&1.a", "l2.a"}},
+				{Pkg: "q", Name: "lib", Outs: []string{"l1.a"}},
+				{Pkg: "tools", Name: "tool", Outs: []string{"tool.sh"}, Binary: true},
+				{Pkg: "tools", Name: "tool", Sub: "freebsd_amd64", Outs: []string{"tool.sh"}, Binary: true},
+				{Pkg: "tools", Name: "xtool", Sub: "freebsd_amd64", Outs: []string{"xtool.sh"}, Binary: true},
+				{Pkg: "tools", Name: "xtool", Outs: []string{"xtool.sh"}, Binary: true},
+				{Pkg: "path/to", Name: "dep3", Sub: "third_party/sub", Outs: []string{"d3.txt"}},
+				{Pkg: "path/to", Name: "dep3", Outs: []string{"d3main.txt"}}}}
+	}, []seq{{"location", "//path/to:target2"}, {"location", "///third_party/sub//path/to:target2"}, {"out_location", "@third_party/sub//path/to:target2"},
+		{"locations", "///vend//q:lib"}, {"out_locations", "@vend//q:lib"}, {"locations", "//q:lib"},
+		{"exe", "//tools:tool"}, {"exe", "///freebsd_amd64//tools:tool"}, {"exe", "///freebsd_amd64//tools:xtool"}, {"exe", "//tools:xtool"},
+		{"location", "///third_party/sub//path/to:dep3"}, {"dir", ":dep3"}, {"out_dir", "///other//path/to:target2"}, {"dir", "///vend//q:lib"}}},
 }
 
 func inProcess(c *lib.Ctx) {
-	nworlds := c.Scale(30, 900)
+	nworlds := c.Scale(36, 900)
 	cwd, _ := os.Getwd()
 	defer os.Chdir(cwd)
 	for i := 0; i < nworlds; i++ {
@@ -830,25 +980,30 @@ func inProcess(c *lib.Ctx) {
 		if err := os.Chdir(root); err != nil { // filepath.Abs in checkAndReplaceSequence uses the working directory
 			panic(err)
 		}
-		plain := i%2 == 1
-		w := genWorld(r, root, plain)
+		mode, subrepos := []int{namesAll, namesPlain, namesOperators}[i%3], i%2 == 1
+		w := genWorld(r, root, mode, subrepos)
 		var fixed []seq
 		if i < len(corpus) { // the witnesses of the known findings and their valid neighbours, always run first
 			w, fixed = corpus[i].w(root), corpus[i].seqs
-			plain = false
+			mode = namesAll
+		} else if mode == namesOperators {
+			fixed = pluralSeqs(r, w, 4)
 		}
 		b := build(w)
 		tmpAbs, layout := materialise(w, b)
 		cw := coqWorld(w, b)
-		c.Hist("world_names", map[bool]string{true: "plain", false: "with-metacharacters"}[plain])
+		c.Hist("world_names", []string{"with-metacharacters", "plain", "plain-and-operators"}[mode])
+		c.Hist("world_repos", map[bool]string{true: "with-subrepos", false: "main-repository-only"}[w.hasSubrepos()])
 		c.Case(lib.App("CLayout", cw, lib.StrList(layout)), map[string]any{"world": w, "layout": layout}, fmt.Sprint("L", i), len(layout) > 0)
 
 		pending := []bashQuery{}
-		for _, s := range append(fixed, genSeqs(r, w, 10-min(10, len(fixed)))...) {
+		for _, s := range append(fixed, genSeqs(r, w, max(10, len(fixed))-len(fixed))...) {
 			cmd := s.text()
 			e := expect(w, b, s)
 			var o outcome
-			if strings.Contains(s.Arg, "|") && e.why == "unknown entry point" {
+			if strings.Contains(s.Arg, "|") && !e.valid {
+				// log.Fatalf on an unknown entry point ends the process; a sequence that should be rejected for another
+				// reason runs in a child too, so that a regression which resolves it anyway is reported, not a crash
 				o = expandInChild(w, false, cmd)
 			} else {
 				o = expand(b, false, cmd)
@@ -880,7 +1035,15 @@ func inProcess(c *lib.Ctx) {
 		// one bash process per world answers all the queries (each text is parsed by `eval`, as `bash -c` would)
 		for k, br := range askBashAll(filepath.Join(root, ".queries"), pending) {
 			q := pending[k]
-			if !br.ok || len(br.words) != q.e.words || len(br.missing) > 0 {
+			if q.e.paths != nil && br.ok && len(br.missing) == 0 && len(br.words) == q.e.words && !sameWords(br.words, q.e.paths) {
+				// model-independent: the words must be the paths at which the dependency's outputs are, one each
+				cls := "expansion-words-are-not-the-output-paths"
+				if hasUnhandledSpecial(q.e.names) {
+					cls = "name-with-shell-char-outside-quote-set"
+				}
+				c.Fail(cls, fmt.Sprintf("%s expands to %q: bash makes the words %q, the outputs are at %q", q.cmd, q.text, br.words, q.e.paths), q.js)
+				c.Hist("oracle", "fails:"+cls)
+			} else if !br.ok || len(br.words) != q.e.words || len(br.missing) > 0 {
 				cls := q.e.shape
 				if cls == "" && hasUnhandledSpecial(q.e.names) {
 					cls = "name-with-shell-char-outside-quote-set"
@@ -898,7 +1061,7 @@ func inProcess(c *lib.Ctx) {
 		for k := 0; k < 2; k++ {
 			parts := []string{"cat"}
 			for _, s := range genSeqs(r, w, r.Range(2, 4)) {
-				if strings.Contains(s.Arg, "|") && expect(w, b, s).why == "unknown entry point" {
+				if strings.Contains(s.Arg, "|") && !expect(w, b, s).valid {
 					continue
 				}
 				parts = append(parts, s.text())
@@ -913,7 +1076,7 @@ func inProcess(c *lib.Ctx) {
 			cmd := ""
 			if r.Chance(2, 3) {
 				s := genSeqs(r, w, 1)[0]
-				if !(strings.Contains(s.Arg, "|") && expect(w, b, s).why == "unknown entry point") {
+				if !(strings.Contains(s.Arg, "|") && !expect(w, b, s).valid) {
 					cmd = "run " + s.text()
 				}
 			}
@@ -1002,12 +1165,20 @@ genrule(name="semi", outs=["se;mi.txt"], cmd='echo x > "$OUT"')
 genrule(name="sp", outs=["a b.txt"], cmd='echo x > "$OUT"')
 genrule(name="dl", outs=["a$HOME.txt"], cmd='echo x > "$OUTS"')
 genrule(name="multi", outs=["m1.txt","m2.txt"], cmd='for o in $OUTS; do echo x > $o; done')
+genrule(name="mamp", outs=["m&1.txt","m2p.txt","m(3).txt"], cmd='for o in $OUTS; do echo x > "$o"; done')
+genrule(name="tool2", outs=["t;1.sh","t2.sh"], binary=True, cmd='for o in $OUTS; do echo x > "$o"; done')
 genrule(name="named", outs={"n1":["n1.txt"],"n2":["n2.txt"]}, cmd='for o in $OUTS; do echo x > $o; done')
 genrule(name="tool", outs=["bin/t.sh"], binary=True, entry_points={"main":"bin/t.sh"}, cmd='mkdir -p bin; printf "#!/bin/sh\\necho ran\\n" > $OUT; chmod +x $OUT')
 genrule(name="lib", outs=["libdir"], entry_points={"main":"libdir/inner.txt"}, cmd='mkdir $OUT; echo x > $OUT/inner.txt')
 `
 	must(os.WriteFile(filepath.Join(repo, "q", "r", "BUILD"), []byte(`genrule(name="far", outs=["far1.txt","far2.txt"], cmd='for o in $OUTS; do echo x > $o; done', visibility=["PUBLIC"])`+"\n"), 0o644))
+	// a subrepo with a package q of its own, next to a package q of the main repository: the same package:name twice
+	os.MkdirAll(filepath.Join(repo, "q"), 0o755)
+	os.MkdirAll(filepath.Join(repo, "vendor", "x", "q"), 0o755)
+	must(os.WriteFile(filepath.Join(repo, "q", "BUILD"), []byte(`genrule(name="lib", outs=["l1.a"], cmd='echo x > $OUT', visibility=["PUBLIC"])`+"\n"), 0o644))
+	must(os.WriteFile(filepath.Join(repo, "vendor", "x", "q", "BUILD"), []byte(`genrule(name="lib", outs=["l&1.a","l2.a"], cmd='for o in $OUTS; do echo x > "$o"; done', visibility=["PUBLIC"])`+"\n"), 0o644))
 	must(os.WriteFile(filepath.Join(repo, "BUILD"), []byte(`genrule(name="rootdep", outs=["r.txt"], cmd='echo x > $OUT', visibility=["PUBLIC"])`+"\n"+
+		`subrepo(name="vend", path="vendor/x")`+"\n"+
 		e2eRule(e2eTarget{"", "use_rootdir", `srcs=[":rootdep"]`, "$(dir :rootdep)", 1, false, "dir-of-root-package-empty"}, "r.txt")), 0o644))
 	ts := []e2eTarget{
 		{"p", "ok_location", `srcs=[":one"]`, "$(location :one)", 1, false, "ok"},
@@ -1023,6 +1194,14 @@ genrule(name="lib", outs=["libdir"], entry_points={"main":"libdir/inner.txt"}, c
 		{"p", "ok_named_all", `srcs=[":named"]`, "$(locations :named)", 2, false, "ok"},
 		{"p", "ok_out_location", `srcs=[":one"]`, "$(out_location :one)", 1, true, "ok"},
 		{"p", "ok_out_exe", `tools=[":tool"]`, "$(out_exe :tool|main)", 1, true, "ok"},
+		{"p", "ok_multi_amp", `srcs=[":mamp"]`, "$(locations :mamp)", 3, false, "ok"},
+		{"p", "ok_out_multi_amp", `deps=[":mamp"]`, "$(out_locations :mamp)", 3, true, "ok"},
+		{"p", "ok_tool_multi", `tools=[":tool2"]`, "$(locations :tool2)", 2, false, "ok"},
+		{"p", "ok_sub_locations", `srcs=["///vend//q:lib"]`, "$(locations ///vend//q:lib)", 2, false, "ok"},
+		{"p", "ok_sub_out_locations", `srcs=["@vend//q:lib"]`, "$(out_locations @vend//q:lib)", 2, true, "ok"},
+		{"p", "ok_main_next_to_sub", `srcs=["//q:lib"]`, "$(location //q:lib)", 1, false, "ok"},
+		{"p", "bad_sub_nodep", `srcs=["//q:lib"]`, "$(locations ///vend//q:lib)", 2, false, "rejected"},
+		{"p", "bad_main_nodep", `srcs=["///vend//q:lib"]`, "$(locations //q:lib)", 1, false, "rejected"},
 		{"p", "bad_nodep", ``, "$(location :multi)", 1, false, "rejected"},
 		{"p", "bad_multi", `srcs=[":multi"]`, "$(location :multi)", 1, false, "rejected"},
 		{"p", "bad_notbinary", `srcs=[":one"]`, "$(exe :one)", 1, false, "rejected"},
